@@ -15,22 +15,31 @@ Theorem C20_live_never_timed_out : forall (c : tcfg) (evs : list tevent) (s' : t
 Proof. exact live_never_timed_out. Qed.
 Print Assumptions C20_live_never_timed_out.
 
-(* refutation of the unrestricted statement: a frame followed in the same read by the first byte of the
-   next one leaves the OLD keep-alive timer pending with KA_TIMEOUT cleared; if that timer expires while
-   the request service is not ready, poll_read_pause reports KeepAlive and the connection is ended with
-   KeepAliveTimeout one second after a complete frame (keep-alive 2) *)
+(* with the read-rate rule off (the default) not-ready episodes are harmless as well: no timer ends such
+   a connection at all, provided the poll loop goes on after every frame (frame_followed) *)
+Theorem C20_live_default_config : forall (c : tcfg) (evs : list tevent) (s' : tstate) (outs : list tout),
+  cfg_rr c = None -> cfg_ka c <> 0 -> forallb not_inject evs = true -> frame_followed evs = true ->
+  gaps_ok (cfg_ka c) 0 evs = true ->
+  t_run c (t_init c) evs = Ok (s', outs) -> outs = [].
+Proof. exact live_default_config. Qed.
+Print Assumptions C20_live_default_config.
+
+(* refutation of the unrestricted statement (recorded finding "stale-timer-while-not-ready"): with the
+   read-rate rule ON, a frame-read timer that expires while the request service is not ready is reported
+   by poll_read_pause as KeepAliveTimeout -- here one second after a complete frame, keep-alive 4 *)
 Theorem C20_live_refuted_not_ready :
-  let c := mkTcfg 2 None in
+  let c := mkTcfg 4 (Some (mkRr 1 0 0)) in
   let evs := [Recv false 0; Tick; Recv true 1; Recv false 1; Tick; TimerFired; Paused] in
-  gaps_ok 2 0 evs = true /\ exists s, t_run c (t_init c) evs = Ok (s, [StopKeepAlive]).
+  gaps_ok 4 0 evs = true /\ exists s, t_run c (t_init c) evs = Ok (s, [StopKeepAlive]).
 Proof. exact live_refuted_not_ready. Qed.
 Print Assumptions C20_live_refuted_not_ready.
 
-(* once the keep-alive timer is armed (deadline dl), seconds passing and partial reads (read-rate rule
-   off) leave it armed with the same deadline, and when the wheel finds it due the connection is
-   ended with KeepAliveTimeout *)
+(* once the keep-alive timer is armed (deadline dl), seconds passing and polls that decode no frame leave
+   it armed with the same deadline -- read-rate rule off: whatever is buffered; read-rate rule on: while
+   nothing is buffered (a buffered partial frame is then under the read-rate rule) -- and when the wheel
+   finds it due the connection is ended with KeepAliveTimeout *)
 Theorem C20_idle_times_out : forall (c : tcfg) (s : tstate) (dl : N) (evs : list tevent),
-  cfg_rr c = None -> armed s dl -> forallb idle_ev evs = true ->
+  (cfg_rr c = None \/ read_remains s = 0) -> armed s dl -> forallb (idle_ev c) evs = true ->
   exists s1, t_run c s evs = Ok (s1, []) /\ timer s1 = Some dl /\ now s1 = now s + ticks evs /\
     (dl <= now s1 -> forall r, exists s2,
        t_run c s1 [TimerFired; Recv false r] = Ok (s2, [StopKeepAlive]) /\ stopped s2 = true /\ timer s2 = None).
@@ -43,16 +52,22 @@ Theorem C20_idle_armed_at_start : forall (c : tcfg), cfg_ka c <> 0 ->
 Proof. exact init_arms. Qed.
 Print Assumptions C20_idle_armed_at_start.
 
-(* refutation of "no complete packet for the keep-alive period => KeepAliveTimeout": a frame that arrives
-   together with the first byte of the next packet clears KA_TIMEOUT, and with the read-rate rule off
-   (the default) nothing arms a timer again: the connection stays open for ever, whatever the keep-alive *)
-Theorem C20_idle_times_out_refuted : forall (ka : N) (evs : list tevent),
-  ka <> 0 -> forallb silence evs = true ->
-  let c := mkTcfg ka None in
-  exists s, t_run c (t_init c) ([Recv false 0; Recv true 1; Recv false 1] ++ evs) = Ok (s, []) /\
-            stopped s = false.
-Proof. exact idle_partial_never_times_out. Qed.
-Print Assumptions C20_idle_times_out_refuted.
+(* after a complete frame (KA_TIMEOUT cleared) the next poll that decodes no frame arms the keep-alive
+   timer again for the full period (a pending timer due then or a second later is kept): with the
+   read-rate rule off whatever is buffered (since a67d067; before it a frame that arrived together with
+   the first byte of the next packet left the connection without any timer), with it on when nothing is *)
+Theorem C20_frame_rearms_keepalive : forall (c : tcfg) (s : tstate) (r : N),
+  cfg_ka c <> 0 -> (cfg_rr c = None \/ r = 0) -> after_frame s ->
+  exists s1 dl, timer_step c s (Recv false r) = Ok (s1, []) /\ armed s1 dl /\
+                now s + cfg_ka c <= dl <= now s + cfg_ka c + 1.
+Proof. exact partial_frame_arms_keepalive. Qed.
+Print Assumptions C20_frame_rearms_keepalive.
+
+Theorem C20_frame_clears_keepalive : forall (c : tcfg) (s : tstate) (r : N),
+  stopped s = false -> ka_enabled s = true -> dsp_timeout s = false ->
+  exists s1, timer_step c s (Recv true r) = Ok (s1, []) /\ after_frame s1 /\ timer s1 = timer s /\ now s1 = now s.
+Proof. exact frame_clears. Qed.
+Print Assumptions C20_frame_clears_keepalive.
 
 (* keep-alive 0 disables the keep-alive timeout -- if the service never becomes not-ready, or if the
    read-rate rule is off and nobody calls notify_timeout *)
@@ -71,10 +86,10 @@ Theorem C20_ka_zero_disables_refuted :
 Proof. exact ka_zero_disables_refuted. Qed.
 Print Assumptions C20_ka_zero_disables_refuted.
 
-(* read-rate rule, timer expiry with READ_TIMEOUT set: at most `rate` new bytes => ReadTimeout *)
+(* read-rate rule, timer expiry with READ_TIMEOUT set: at most `rate` new bytes => ReadTimeout
+   (`-` on N truncates at 0 = read_remains.saturating_sub(read_remains_prev)) *)
 Theorem C20_slow_frame_times_out : forall (c : tcfg) (p : rr_cfg) (s : tstate) (r : N),
   cfg_rr c = Some p -> expired_read s ->
-  read_remains_prev s <= read_remains s ->
   read_remains s - read_remains_prev s <= rr_rate p ->
   exists s1, timer_step c s (Recv false r) = Ok (s1, [StopRead]) /\ stopped s1 = true /\ timer s1 = None.
 Proof. exact slow_frame_times_out. Qed.
@@ -84,7 +99,6 @@ Print Assumptions C20_slow_frame_times_out.
    unless max_timeout is used up *)
 Theorem C20_fast_enough_extends : forall (c : tcfg) (p : rr_cfg) (s : tstate) (r : N),
   cfg_rr c = Some p -> expired_read s -> timer s = None ->
-  read_remains_prev s <= read_remains s ->
   rr_rate p < read_remains s - read_remains_prev s ->
   (rr_max p = 0 \/ next_max p s <> 0) ->
   exists s1, timer_step c s (Recv false r) = Ok (s1, []) /\ stopped s1 = false /\
@@ -96,38 +110,30 @@ Print Assumptions C20_fast_enough_extends.
 
 Theorem C20_max_timeout_exhausted : forall (c : tcfg) (p : rr_cfg) (s : tstate) (r : N),
   cfg_rr c = Some p -> expired_read s ->
-  read_remains_prev s <= read_remains s ->
   rr_rate p < read_remains s - read_remains_prev s ->
   rr_max p <> 0 -> next_max p s = 0 ->
   exists s1, timer_step c s (Recv false r) = Ok (s1, [StopRead]) /\ stopped s1 = true /\ timer s1 = None.
 Proof. exact max_timeout_exhausted. Qed.
 Print Assumptions C20_max_timeout_exhausted.
 
-(* `read_remains - read_remains_prev` never underflows if (mono) the decoder consumes nothing before a
-   frame is complete and (loop_ok) the poll loop comes back to poll_recv_decode after every timeout *)
-Theorem C20_no_underflow : forall (c : tcfg) (evs : list tevent),
-  loop_ok evs = true -> mono 0 evs = true -> exists r, t_run c (t_init c) evs = Ok r.
+(* no event sequence from any state makes the timer machine panic (4dba145: saturating_sub).
+   Before that commit `read_remains - read_remains_prev` underflowed (debug: panic of the connection
+   task, which takes the worker down) (1) when the decoder consumed the packet header between two
+   expiries, as both MQTT codecs do (bytes 0x82, later 0x05), (2) when write back-pressure began in the
+   poll that extended the read timer; C20_former_underflow_sequences runs those two sequences *)
+Theorem C20_no_underflow : forall (c : tcfg) (evs : list tevent) (s : tstate),
+  exists r, t_run c s evs = Ok r.
 Proof. exact no_underflow. Qed.
 Print Assumptions C20_no_underflow.
 
-(* refutation 1: a decoder that consumes the packet header as soon as it is complete (both MQTT codecs
-   of the crate do) makes the buffered count DROP between two expiries: 1 byte buffered, extension
-   (prev = 1), second header byte arrives and the header is consumed (remains = 0): 0 - 1 *)
-Theorem C20_no_underflow_refuted :
+Theorem C20_former_underflow_sequences :
   let c := mkTcfg 0 (Some (mkRr 1 0 0)) in
-  let evs := [Recv false 1; Tick; TimerFired; Recv false 1; Recv false 0; Tick; TimerFired; Recv false 0] in
-  loop_ok evs = true /\ t_run c (t_init c) evs = Panic PS_sub_overflow.
-Proof. exact no_underflow_refuted_header. Qed.
-Print Assumptions C20_no_underflow_refuted.
-
-(* refutation 2: write back-pressure starting in the very poll that extended the read timer keeps the
-   loop away from poll_recv_decode (read_remains stays 0): the next expiry computes 0 - prev *)
-Theorem C20_no_underflow_refuted_backpressure :
-  let c := mkTcfg 0 (Some (mkRr 1 0 0)) in
-  let evs := [Recv false 3; Tick; TimerFired; Timeout; Tick; TimerFired; Recv false 3] in
-  mono 0 evs = true /\ t_run c (t_init c) evs = Panic PS_sub_overflow.
-Proof. exact no_underflow_refuted_backpressure. Qed.
-Print Assumptions C20_no_underflow_refuted_backpressure.
+  (exists s, t_run c (t_init c) [Recv false 1; Tick; TimerFired; Recv false 1; Recv false 0; Tick; TimerFired;
+                                 Recv false 0] = Ok (s, [StopRead])) /\
+  (exists s, t_run c (t_init c) [Recv false 3; Tick; TimerFired; Timeout; Tick; TimerFired; Recv false 3]
+             = Ok (s, [StopRead])).
+Proof. exact former_underflow_sequences. Qed.
+Print Assumptions C20_former_underflow_sequences.
 
 (* Handshake::ack: keep-alive * 1.5 (integer: ka + ka/2), saturating at u16::MAX; 0 -> 30 s *)
 Theorem C20_keepalive_factor : forall (ka : N),
